@@ -5,7 +5,7 @@ import json, sys
 CHECKS = {
  "C01": dict(
    technique="model-based stateful PBT + exhaustive enumeration (capacity x phase x observer x iterator split) against a VecDeque model",
-   text="Exhaustive enumeration of every capacity 0..=254, every ring phase, every constructor/start index and every observer incl. every iterator split (thorough; quick: stratified capacities), plus proptest op-sequence histories on u32 and Box<u32> elements. Complete for the default PeriodType because Window behaviour depends only on (capacity, index).",
+   text="Exhaustive enumeration of every capacity 0..=254, every ring phase, every constructor/start index and every observer incl. every iterator split and every positional/consuming Iterator adaptor (nth, skip, take, step_by up to usize::MAX, fold, find, position, ...) after each split (thorough; quick: stratified capacities), plus proptest op-sequence histories on u32 and Box<u32> elements. Complete for the default PeriodType because Window behaviour depends only on (capacity, index).",
    note="Trusted: the VecDeque model, serde_json; labels stand for all values (parametricity). Wide PeriodType builds are covered by C20.",
    ref="DESIGN.md §5 C01"),
  "C16": dict(
